@@ -1,8 +1,26 @@
-(* Link/SchedLink.v -- calculate_qnoise_factor regenerated from qkeras/callbacks.py on every run is Quant.Noise.calc. *)
-From Coq Require Import ZArith Bool.
+(* Link/SchedLink.v -- calculate_qnoise_factor, update_qnoise_factor and the three hooks of QNoiseScheduler, regenerated from
+   qkeras/callbacks.py on every run (coq/gen/SchedGen.v), are calc / step of Quant/Noise.v. *)
+From Coq Require Import ZArith Bool List.
 From QV Require Import Base.ZQ Base.FL Quant.Noise.
 From QVGen Require Import SchedGen.
 Open Scope Z_scope.
 Lemma link_calc pw start finish freq : gen_calc pw start finish freq = calc pw start finish freq.
 Proof. reflexivity. Qed.
 Lemma link_sched_ok : translation_ok = true. Proof. reflexivity. Qed.
+(* the hooks and update_qnoise_factor regenerated from the source, assembled into one transition, are the state machine `step`
+   of Quant/Noise.v -- whatever batch / epoch index Keras passes to the hook *)
+Definition hook_code (h : hook) : Z := match h with EpochBegin => 0 | BatchBegin => 1 | EpochEnd => 2 end.
+Definition gen_step (pw : rat -> rat) (start finish : Z) (by_epoch : bool) (update_freq initial : Z) (s : sstate) (h : hook) (batch epoch : Z) : sstate :=
+  match gen_hook_freq by_epoch (hook_code h) initial (num_iters s) batch epoch with
+  | None => s
+  | Some freq =>
+    if gen_update_applies update_freq freq
+    then let v := gen_calc pw start finish freq in SS (num_iters s + 1) (v :: applied s) (map (fun _ => v) (factors s))
+    else SS (num_iters s + 1) (applied s) (factors s)
+  end.
+Lemma link_step pw start finish by_epoch update_freq initial s h batch epoch :
+  gen_step pw start finish by_epoch update_freq initial s h batch epoch = step pw start finish by_epoch update_freq initial s h.
+Proof. unfold gen_step, step, update_qnoise, gen_hook_freq, gen_update_applies, gen_calc.
+  destruct h; cbn [hook_code]; change (0 =? 0) with true; change (1 =? 0) with false; change (1 =? 1) with true;
+    change (2 =? 0) with false; change (2 =? 1) with false; cbv iota; destruct by_epoch; cbn [negb]; try reflexivity;
+    destruct ((initial + num_iters s) mod update_freq =? 0); reflexivity. Qed.
